@@ -67,7 +67,8 @@ def check(rep):
             cases.append(("**", a, b, ("Power", a, b)))
         for k in (1, 2, 3, 7, 1.0, 2.0, 12.0):
             cases.append(("**", a, k, ("NthPower", a, int(k))))
-    bad_exponents = [0, -1, -3, 2.5, 0.5, -2.0, 0.0, math.inf, "2", None, "POINT"]
+    bad_exponents = [0, -1, -3, 2.5, 0.5, -2.0, 0.0, math.inf, "2", None, "POINT",
+                     2.000000001, 1.9999999999999998, 2.0000000000001, 3 - 1e-12, 1e-15 + 1]
     bad_operands = [3, 2.5, "x", None, "POINT", 0, 1]
     for a in operands[:3]:
         for e in bad_exponents:
